@@ -426,9 +426,12 @@ Section ProvC.
     intros (Hg & Hd & Hw & How) Hc. assert (Hcore : core_ok (c_core c)) by apply Hc. destruct Hcore as ((Htp & Hta) & _ & _ & _ & _ & _ & Hat & Hia & Hin).
     assert (Hdst : TI (c_dst c)) by apply Hc. assert (Hsrc : TI (c_src c)) by apply Hc.
     unfold trait_env. cbv zeta.
-    set (these_lts := flat_map _ (tv_generics t)). set (those_lts := angle_lts (tp_generics (c_ty c))).
+    set (these_lts := flat_map _ (tv_generics t)). set (those_lts := declarable_lts (angle_lts (tp_generics (c_ty c)))).
     assert (H1 : Forall (fun n => P n) these_lts) by (apply these_lts_ok; exact Hg).
-    assert (H2 : Forall (fun n => P n) those_lts) by (apply angle_lts_ok; exact Hta).
+    assert (H2 : Forall (fun n => P n) those_lts).
+    { subst those_lts. unfold declarable_lts. apply Forall_forall. intros x Hx. apply filter_In in Hx. destruct Hx as [Hx _].
+      assert (Ha : Forall (fun n => P n) (angle_lts (tp_generics (c_ty c)))) by (apply angle_lts_ok; exact Hta).
+      rewrite Forall_forall in Ha. exact (Ha x Hx). }
     set (ref_lts := if is_ref (c_kind c) then _ else []).
     assert (H3 : Forall (fun n => P n) ref_lts). { subst ref_lts. destruct (is_ref (c_kind c)); [destruct (is_from (c_kind c)); assumption | constructor]. }
     clearbody these_lts those_lts ref_lts.
@@ -463,7 +466,7 @@ Section ProvC.
     intros Ht Hc0. unfold RT, quote_trait. cbv zeta.
     assert (Hpre : TI (opt_toks (struct_pre_init c0))) by (apply TI_opt_toks, TI_struct_pre_init; exact Hc0).
     assert (Hd : dview_ok (tv_data t)) by apply Ht.
-    apply (RR_bind oTI); [apply R_struct_post_init; exact Hd|]. intros post Hpost.
+    apply (RR_bind oTI); [destruct (is_some (tc_qret (c_core c0))); [apply RR_ok; exact Logic.I | apply R_struct_post_init; exact Hd]|]. intros post Hpost.
     set (c := {| c_kind := c_kind c0; c_post_init := is_some post |}).
     assert (Hc : ictx_ok c) by exact Hc0.
     assert (Hbase : env_ok (trait_env t c)) by (apply trait_env_ok; assumption).
